@@ -197,6 +197,111 @@ def canon_prove(claim, assumptions, fvar, label, timeout_ms=60000):
 _G = {}
 
 
+def eval_proxy(v, pairs):
+    """evaluate a proxy value under a concrete assignment of the payload variables (translator validation)"""
+    from .envmodels import SymDate, SymTime
+    import datetime
+    if v is None or not is_symbolic(v):
+        return v
+    if isinstance(v, SymOpt):
+        n = z3.simplify(z3.substitute(v.none, *pairs))
+        if z3.is_true(n):
+            return None
+        if not z3.is_false(n):
+            raise Unsupported("cannot evaluate none-condition")
+        return eval_proxy(v.inner, pairs)
+    if isinstance(v, SymInt):
+        t = z3.simplify(z3.substitute(v.t, *pairs))
+        if not z3.is_bv_value(t):
+            raise Unsupported("cannot evaluate int term")
+        return t.as_signed_long()
+    if isinstance(v, SymFloat):
+        return P.fpval_to_float(z3.simplify(z3.substitute(v.t, *pairs)))
+    if isinstance(v, symcoll.SymMap):
+        k = eval_proxy(v.key, pairs)
+        return v.mapping.get(k, v.default)
+    if isinstance(v, SymDate):
+        return datetime.date.fromordinal(eval_proxy(v.ordinal, pairs))
+    if isinstance(v, SymTime):
+        return datetime.time(eval_proxy(v.hour, pairs), eval_proxy(v.minute, pairs), eval_proxy(v.second, pairs))
+    if isinstance(v, SymBinary):
+        x = eval_proxy(v.value, pairs)
+        return x.to_bytes((x.bit_length() + 8) // 8 or 1, "big")
+    raise Unsupported("no evaluator for %s" % type(v).__name__)
+
+
+def validate_translation(rep, D, p, m, pa, pv, fvars, rnd, N):
+    """Serval-style validation of the symbolic run: evaluate its terms under concrete payloads and compare with the
+    plain code.  A difference is a HARNESS-ERROR (the engine misrepresents the code), never a property verdict."""
+    import math
+    vars_ = [v for v in z3util_vars(pv)]
+    fn = N.pgns.__dict__.get("decode_pgn_%s" % D.func_suffix(p))
+    nval = 0
+    for trial in range(2):
+        pairs = []
+        byvar = {}
+        for f in p.fields:
+            v = fvars.get(f.order)
+            if v is None or not z3.is_const(v):
+                continue
+            if f.res is not None and f.type in NUMERIC + ("TIME", "DATE"):
+                sg = Sig(f)
+                lo, hi = sg.raw_range()
+                lo = lo if lo is not None else (-(1 << (f.len - 1)) if f.signed else 0)
+                hi = hi if hi is not None else ((1 << (f.len - 1)) - 1 if f.signed else (1 << f.len) - 1)
+                lo = max(lo, -(1 << (f.len - 1)) if f.signed else 0)
+                hi = min(hi, (1 << (f.len - 1)) - 1 if f.signed else (1 << f.len) - 1)
+                raw = rnd.choice([lo, hi, rnd.randint(lo, hi), sg.sentinel if trial else rnd.randint(lo, hi)]) & ((1 << f.len) - 1)
+            elif f.match is not None:
+                raw = int(f.match)
+            else:
+                raw = rnd.getrandbits(f.len)
+            byvar[v.get_id()] = raw
+        for v in vars_:
+            val = byvar.get(v.get_id(), rnd.getrandbits(v.size()) if not v.decl().name().startswith("garbage") else 0)
+            pairs.append((v, z3.BitVecVal(val, v.size())))
+        payload = z3.simplify(z3.substitute(pv, *pairs)).as_long()
+        try:
+            guards = [z3.simplify(z3.substitute(g, *pairs)) for g, _ in pa.deferred]
+            sym_raises = any(z3.is_true(g) for g in guards)
+            if any(not (z3.is_true(g) or z3.is_false(g)) for g in guards):
+                continue
+            pc_ok = all(z3.is_true(z3.simplify(z3.substitute(c, *pairs))) for c in pa.pc)
+            if not pc_ok:
+                continue
+        except Exception:
+            continue
+        try:
+            pm = fn(payload)
+            plain_raises = False
+        except Exception:
+            pm, plain_raises = None, True
+        if sym_raises != plain_raises:
+            rep.error("translator validation %s payload %#x: symbolic run says raises=%s, plain code raises=%s" % (p.id, payload, sym_raises, plain_raises))
+            continue
+        if plain_raises:
+            nval += 1
+            continue
+        for f, sf, pf in zip(p.fields, m.fields, pm.fields):
+            if f.type not in SUPPORTED or not f.fixed or f.type in ("STRING_FIX", "BITLOOKUP"):
+                continue
+            try:
+                sv = eval_proxy(sf.value, pairs)
+            except Unsupported:
+                continue
+            pv_ = pf.value
+            same = (sv == pv_) or (isinstance(sv, float) and isinstance(pv_, float) and math.isnan(sv) and math.isnan(pv_))
+            if not same or (type(sv) is not type(pv_) and not (isinstance(sv, (int, float)) and isinstance(pv_, (int, float)) and type(sv) is type(pv_))):
+                rep.error("translator validation %s.%s payload %#x: symbolic evaluation gives %r, plain code gives %r" % (p.id, f.id, payload, sv, pv_))
+        nval += 1
+    return nval
+
+
+def z3util_vars(t):
+    from z3 import z3util
+    return z3util.get_vars(t)
+
+
 @guarded
 def _defs_worker(idxs):
     """check a subset of definitions (runs in a forked worker); returns picklable partial results"""
@@ -207,6 +312,7 @@ def _defs_worker(idxs):
     outside = {}
     sigs = {}
     programs = fields_checked = disagreements = 0
+    nvalid = 0
 
     def out(reason, n=1):
         outside[reason] = outside.get(reason, 0) + n
@@ -266,6 +372,8 @@ def _defs_worker(idxs):
                 continue
             try:
                 n = check_message(rep, D, H, p, m, calls, pa, pv, fvars, mode, sigs, out)
+                if mode == "full":
+                    nvalid += validate_translation(rep, D, p, m, pa, pv, fvars, _G["rnd"], _G["N"])
             except Unsupported as e:
                 rep.inconc("%s: %s" % (p.id, e))
                 continue
@@ -275,7 +383,7 @@ def _defs_worker(idxs):
             rep.sample({"definition": p.id, "pgn": p.pgn, "payload_bits": W, "paths": len(paths), "fields": len(p.fields)})
     return dict(violations=rep.violations, inconclusive=rep.inconclusive, errors=rep.harness_errors, outside=outside,
                 sigs={k: v for k, v in sigs.items()}, programs=programs, fields=fields_checked, dis=disagreements,
-                samples=rep.samples, stats=explorer.STATS)
+                samples=rep.samples, stats=explorer.STATS, nvalid=nvalid)
 
 
 @guarded
@@ -299,7 +407,9 @@ def run(tier, seed):
     D = db()
     H = Harness()
     R = H.R
-    _G.update(D=D, H=H, tier=tier)
+    import random
+    from .plain import plain
+    _G.update(D=D, H=H, tier=tier, rnd=random.Random(seed), N=plain())
     rep.functions = ["pgns.decode_pgn_* (every definition)", "utils.decode_number", "utils.decode_int", "utils.decode_float",
                      "utils.decode_time", "utils.decode_date", "utils.decode_string_fix", "utils.decode_bit_lookup (kernel level)",
                      "message.int_to_bytes (kernel level)", "message.NMEA2000Message/NMEA2000Field"]
@@ -334,6 +444,7 @@ def run(tier, seed):
             for smp in part["samples"]:
                 rep.sample(smp)
             explorer.STATS.merge(part["stats"])
+            rep.count("translator_validation_payloads", part.get("nvalid", 0))
         rep.count("definitions_run", programs)
         rep.count("fields_checked", fields_checked)
         # ---- kernel-level obligations per numeric signature
